@@ -78,8 +78,10 @@ def ngoal_text(g):
     for node in g:
         if node.is_leaf and not hasattr(node.value, "untyped_representation"):
             try:
-                consts.append(float(node.value).hex())
-            except (TypeError, ValueError):
+                v = float(node.value)
+                # an integral constant is the integer it denotes: -0.0, 0, 0.0 are one number (and one goal)
+                consts.append(float(int(v)).hex() if v.is_integer() else v.hex())
+            except (TypeError, ValueError, OverflowError):
                 consts.append(str(node.value))
     return ws(g.to_pddl()) + (" #" + ",".join(consts) if consts else "")
 
@@ -95,6 +97,19 @@ def dump_problem(p):
         "goals": [ws(str(g)) for g in p.goal_state_predicates],
         "ngoals": [ngoal_text(g) for g in p.goal_state_fluents],
     }
+
+
+def subtype_table(d):
+    """is_sub_type for every ordered pair of the domain's types (the relation itself, not the parent pointers)"""
+    names = list(d.types)
+    return ["%s<=%s" % (a, b) for a in names for b in names if d.types[a].is_sub_type(d.types[b])]
+
+
+def digest(d):
+    """digest of everything dump_domain shows of a Domain object plus its subtype relation"""
+    import hashlib
+    import json
+    return hashlib.sha1(json.dumps([dump_domain(d), subtype_table(d)], sort_keys=True).encode()).hexdigest()[:16]
 
 
 def canon_domain(d):
@@ -163,13 +178,21 @@ def combine(job):
     for name, text in list(job["dfiles"].items()) + list(job["pfiles"].items()):
         (cdir / name).write_text(text)
     res = {}
-    # ---- history before the call: unrelated domains
+    # ---- history before the call: unrelated domains (typed, untyped, one sharing type names with the agents' files)
     others = {}
     for name, text in job.get("others", {}).items():
         f = cdir / "aux" / name
         f.write_text(text)
         others[name] = DomainParser(f, partial_parsing=False).parse_domain()
-    others_before = {n: dump_domain(d) for n, d in others.items()}
+    onames = sorted(others)
+
+    def parse_others_again():
+        out = []
+        for name in onames:
+            r = attempt(lambda name=name: digest(DomainParser(cdir / "aux" / name, partial_parsing=False).parse_domain()))
+            out.append([name, r.get("ok", "raised %s" % r.get("raised"))])
+        return out
+    res["others_before"] = [[n, digest(others[n])] for n in onames]
     res["default_before"] = default_state()
     # ---- per-file vocabulary dumps (what the model is given)
     real_dorder = [p.name for p in cdir.glob("domain-*.pddl")]
@@ -193,25 +216,41 @@ def combine(job):
     with forced_glob(job.get("dorder")):
         res["dobs"] = attempt(locate)
     res["default_after"] = default_state()
-    # ---- export, re-parse
+    # the domains parsed before are untouched, parsing them again now gives the same
+    res["others_mid"] = [[n, digest(others[n])] for n in onames]
+    res["others_again_mid"] = parse_others_again()
+    # ---- export with the real DomainExporter, re-parse with the real parser
     exported = None
-    if "ok" in res["dobs"]:
+
+    def export_reparse(flag, folder, keep_vocab):
+        """(exported path | None, {"ok": file name} | raised, re-parsed dump | raised | None)"""
         def export():
             with forced_glob(job.get("dorder")):
-                return conv.export_combined_domain(add_dummy_actions=job["dummy"], output_folder=cdir / "out")
+                return conv.export_combined_domain(add_dummy_actions=flag, output_folder=folder)
         r = attempt(export)
-        if "ok" in r:
-            exported = r["ok"]
-            res["dexport"] = {"ok": exported.name}
-            def reparse():
-                d = DomainParser(domain_path=exported, partial_parsing=False, enable_disjunctions=True).parse_domain()
+        if "ok" not in r:
+            return None, r, None
+
+        def reparse():
+            d = DomainParser(domain_path=r["ok"], partial_parsing=False, enable_disjunctions=True).parse_domain()
+            if keep_vocab:
                 structured["rt_vocab"] = core_vocab(d)
-                return dump_domain(d)
-            res["drt"] = attempt(reparse)
-            if "ok" in res["drt"]:
-                res["drt_same"] = canon_domain(res["drt"]["ok"]) == canon_domain(res["dobs"]["ok"])
-        else:
-            res["dexport"] = r
+            return dump_domain(d)
+        return r["ok"], {"ok": r["ok"].name}, attempt(reparse)
+    if "ok" in res["dobs"]:
+        exported, res["dexport"], drt = export_reparse(job["dummy"], cdir / "out", True)
+        if drt is not None:
+            res["drt"] = drt
+            if "ok" in drt:
+                res["drt_same"] = canon_domain(drt["ok"]) == canon_domain(res["dobs"]["ok"])
+    # ---- the same with the other setting of add_dummy_actions
+    (cdir / "out2").mkdir()
+    with forced_glob(job.get("dorder")):
+        res["dobs2"] = attempt(lambda: dump_domain(conv.locate_domains(add_dummy_actions=not job["dummy"])))
+    if "ok" in res["dobs2"]:
+        _, res["dexport2"], drt2 = export_reparse(not job["dummy"], cdir / "out2", False)
+        if drt2 is not None:
+            res["drt2"] = drt2
     if job.get("structured"):
         # what the structured correspondence (Corr/C17s.v) needs: the texts, float() of their numerals and of the
         # exported text's, the printing precisions, the two vocabularies
@@ -257,17 +296,11 @@ def combine(job):
                 res["prt_same"] = canon_problem(res["prt"]["ok"]) == canon_problem(res["pobs"]["ok"])
         res["default_after_problems"] = default_state()
     # ---- history after the call: the domains parsed before are untouched, parsing them again gives the same
-    others_after = {n: dump_domain(d) for n, d in others.items()}
-    others_again = {}
-    for name in others:
-        others_again[name] = attempt(lambda name=name: dump_domain(
-            DomainParser(cdir / "aux" / name, partial_parsing=False).parse_domain()))
-    res["others_before"] = others_before
-    res["others_same"] = (others_after == others_before and
-                          all(others_again[n].get("ok") == others_before[n] for n in others))
-    if not res["others_same"]:
-        res["others_after"] = others_after
-        res["others_again"] = others_again
+    res["others_after"] = [[n, digest(others[n])] for n in onames]
+    res["others_again"] = parse_others_again()
+    res["default_end"] = default_state()
+    res["others_same"] = all(x == res["others_before"] for x in (
+        res["others_mid"], res["others_again_mid"], res["others_after"], res["others_again"]))
     if not job.get("keep"):
         shutil.rmtree(cdir, ignore_errors=True)
     return res
